@@ -60,6 +60,10 @@ def goodbye(ctx: Any) -> List[Ob]:
     # every record obtained is actually added
     adds = [c for c in walk_local_ordered(f.node) if isinstance(c, ast.Call) and call_name(c) == 'add_answer_at_time']
     obs.append(ob(R, f, f'{len(adds)} x out.add_answer_at_time(...)', 'each of the four kinds is added to the message', len(adds) == 4 and all(norm(c.func.value) == p_out for c in adds)))
+    # ... with its TTL as it stands: the time handed to the message is 0 (`no ageing`); any other value makes the writer store
+    # the remaining lifetime relative to that instant instead of the TTL of the record (0 for a goodbye)
+    bad_t = [c for c in adds if not (len(c.args) == 2 and prog.try_fold(f.module, c.args[1])[0] and prog.try_fold(f.module, c.args[1])[1] == 0)]
+    obs.append(ob(R, f, bad_t[0] if bad_t else 'out.add_answer_at_time(record, 0)', 'announcement and goodbye records are written with their own TTL (time argument 0), not aged against a clock value', bool(adds) and not bad_t))
     # single source of announcements/goodbyes
     for g in zc.methods.values():
         if g is f or g.name == 'generate_service_query':
@@ -101,7 +105,41 @@ def goodbye(ctx: Any) -> List[Ob]:
     gsb = zc.methods['generate_service_broadcast']
     call = [c for c in walk_local_ordered(gsb.node) if isinstance(c, ast.Call) and call_name(c) == '_add_broadcast_answer']
     obs.append(ob(R, gsb, call[0] if call else '_add_broadcast_answer', 'the TTL and address choice reach the record builders', len(call) == 1 and [norm(a) for a in call[0].args[1:]] == gsb.params[1:4]))
+    # what is purged from the outgoing queues is what is said goodbye to: the address / NSEC records join the withdrawn set under
+    # the very condition that puts them into the goodbye
+    if bc and len(bc[0].args) == 4:
+        addr_var = norm(bc[0].args[3])
+        wd = [c for c in walk_local_ordered(u.node) if isinstance(c, ast.Call) and call_name(c) == 'get_address_and_nsec_records']
+        cfg_u = cfg_of(u.node)
+        ok_w = bool(wd)
+        why_w = '' if wd else 'the address / NSEC records of the service are never withdrawn from the queues'
+        for w in wd:
+            wn = [n for n in cfg_u.nodes if any(c is w for c in n.calls())]
+            tests = [t for t in cfg_u.nodes if t.kind == 'test' and norm(t.ast) == addr_var]
+            neg = [t for t in cfg_u.nodes if t.kind == 'test' and isinstance(t.ast, ast.UnaryOp) and isinstance(t.ast.op, ast.Not) and norm(t.ast.operand) == addr_var]
+            if not wn or not (any(cfg_u.only_through_edge(t, True, wn[0]) for t in tests) or any(cfg_u.only_through_edge(t, False, wn[0]) for t in neg)):
+                ok_w, why_w = False, f'`{norm(w)[:60]}` is not reached exactly when `{addr_var}` holds'
+        obs.append(ob(R, u, wd[0] if wd else 'withdrawn.update(info.get_address_and_nsec_records())', 'the records withdrawn from the outgoing queues include the address / NSEC records exactly when the goodbye carries them', ok_w, why_w))
     # unregister all
+    ga = zc.methods['generate_unregister_all_services']
+    cfg_g = cfg_of(ga.node)
+    fills = cfg_g.nodes_calling('_add_broadcast_answer')
+    rems = [n for n in cfg_g.nodes if any(call_name(c) == 'async_remove' and any(isinstance(x, ast.Attribute) and self_attr(x, ga.params[0]) == 'registry' for x in ast.walk(c.func)) for c in n.calls())]
+    snap = [st for st in walk_local_ordered(ga.node) if isinstance(st, ast.Assign) and isinstance(st.value, ast.Call) and call_name(st.value) == 'async_get_service_infos']
+    same = bool(rems) and bool(snap) and all(any(norm(c.args[0]) == norm(snap[0].targets[0]) for c in n.calls() if call_name(c) == 'async_remove' and c.args) for n in rems)
+    unavoid = bool(fills) and bool(rems) and all(cfg_g.path_avoiding(fl, lambda n: n is cfg_g.exit, lambda n: n in rems) is None for fl in fills)
+    obs.append(ob(R, ga, rems[0].ast if rems else 'self.registry.async_remove(service_infos)', 'every service the closing goodbye is built for is removed from the registry before the routine returns (else it is still answered for after its goodbye)', same and unavoid, '' if rems else 'no registry removal'))
+    if snap:
+        sv = norm(snap[0].targets[0])
+
+        def eff_g(node: Any, evl: Any) -> List[Any]:
+            return ['FILL' for c in fd.node_calls(node, evl) if call_name(c) == '_add_broadcast_answer']
+
+        oc_some, und_s = traces(ctx, ga, {sv: ['svc']}, eff_g, loop_bound=1, for_iter=lambda n, e: True)
+        oc_none, und_n = traces(ctx, ga, {sv: []}, eff_g, loop_bound=1, for_iter=lambda n, e: False)
+        some_ok = bool(oc_some) and all('FILL' in t and not any(isinstance(x, tuple) and x[0] == 'ret' and x[1] is None for x in t) for t in oc_some)
+        none_ok = bool(oc_none) and all('FILL' not in t and any(isinstance(x, tuple) and x[0] == 'ret' and x[1] is None for x in t) for t in oc_none)
+        obs.append(ob(R, ga, snap[0], 'with services registered the closing routine returns their goodbye message; with none it returns nothing', some_ok and none_ok and not und_s and not und_n, f'registered: {sorted(map(str, oc_some))[:2]}; none: {sorted(map(str, oc_none))[:2]}; undecided {und_s + und_n}'))
     obs.append(closing_goodbye_obligation(ctx, R))
     ua = zc.methods['async_unregister_all_services']
     loops = [n for n in walk_local_ordered(ua.node) if isinstance(n, ast.For)]
@@ -338,6 +376,33 @@ def revalidate(ctx: Any) -> List[Ob]:
         if not any('__eq__' in c_.methods for c_ in si.mro()):
             ident += [t for t in cmps if len(t.ops) == 1 and isinstance(t.ops[0], (ast.In, ast.NotIn)) and isinstance(t.left, ast.Name) and t.left.id == info_p]
         obs.append(ob(R, f, cmps[0] if cmps else gen[0], f'{n}: the registry entry is compared with the service object being announced (`is` / `is not`), not merely tested for presence', bool(ident), '' if ident else 'the guard only tests that SOME service is registered under the name: after a re-registration by another object the old task keeps announcing the withdrawn records'))
+        # decision table of the broadcast task over (goodbye copy or normal TTL) x (this object still registered): goodbyes are
+        # always transmitted in full -- the service has just been removed from the registry, that is what a goodbye is -- and an
+        # announcement is transmitted in full exactly while the object stays registered
+        if ttl_p and cmps:
+            def count_iter(node: Any, evl: Any) -> Any:
+                it = node.ast.iter
+                if isinstance(it, ast.Call) and norm(it.func) == 'range' and len(it.args) == 1 and isinstance(node.ast.target, ast.Name):
+                    k = evl.ev(it.args[0])
+                    cur = evl.locals.get(node.ast.target.id)
+                    if isinstance(k, int):
+                        return (0 if not isinstance(cur, int) else cur + 1) < k
+                return None
+
+            def eff_send(node: Any, evl: Any) -> List[Any]:
+                return ['SEND' for c in fd.node_calls(node, evl) if call_name(c) == 'async_send']
+
+            want_n = prog.const('zeroconf._core', '_REGISTER_BROADCASTS')
+            for goodbye_copy in (True, False):
+                for registered in (True, False):
+                    atoms_t: Dict[str, Any] = {ttl_p: 0 if goodbye_copy else None}
+                    for t in cmps:
+                        if len(t.ops) == 1:
+                            atoms_t[norm(t)] = (not registered) if isinstance(t.ops[0], (ast.IsNot, ast.NotIn, ast.NotEq)) else registered
+                    oc_t, und_t = traces(ctx, f, atoms_t, eff_send, loop_bound=want_n + 2, for_iter=count_iter)
+                    sends = sorted({sum(1 for x in t if x == 'SEND') for t in oc_t})
+                    want = [want_n] if (goodbye_copy or registered) else [0]
+                    obs.append(ob(R, f, f'{n}: {"goodbye copies (TTL 0)" if goodbye_copy else "normal TTL"}, service object {"still" if registered else "no longer"} registered', f'the records are transmitted {want[0]} times', sends == want and not und_t, f'transmissions on the feasible paths: {sends}; undecided {und_t}'))
     if not obs:
         raise AnalysisError('anchor vanished: coroutine that broadcasts a service')
     return obs
